@@ -492,3 +492,11 @@ def replay(case, seed):
     if 'hash' in case:
         return run_unit({'kind': 'lr', 'ml': case['message_length'], 'count': 200}, 'thorough', seed)['violations']
     return run_unit({'kind': 'lrc'}, 'quick', seed)['violations']
+
+# a subset of the units is executed again in other environments (child interpreters): see core.run_variants
+ENV_VARIANTS = [{'name': 'python-O', 'flags': ['-O']}]
+
+def variant_units(tier, seed, name):
+    pred = lambda uid, p: p.get('kind') in ('fpeprp', 'lrc')
+    return [u for u in units('quick', seed) if pred(u[0], u[1])]
+
